@@ -36,9 +36,24 @@ def run(ctx):
         raise vlib.Infra('spec self-test failed: the pre-fix SubFS variant does not violate Confined')
     dtmp = ctx.tmp('disk')
     os.makedirs(dtmp)
-    shards, total, taken = vlib.shard_lines(ctx, r['out'], NPROC, marker='\\"k\\":\\"view\\"',
-                                            every=1 if q else 3, offset=ctx.seed)
-    m = vlib.run_sharded(ctx, lambda p: ['views', '--in', p, '--tmp', dtmp], shards)
+    # memory-rooted stacks: every case (thorough: every third of the much larger enumeration); disk-rooted stacks cost a
+    # scratch directory per call and are sampled in the quick tier
+    parts = []
+    for roots, every in (('mem', 1 if q else 3), ('disk', 4 if q else 3)):
+        shards, total, taken = vlib.shard_lines(ctx, r['out'], NPROC, marker='\\"k\\":\\"view\\"', every=every, offset=ctx.seed)
+        parts.append(vlib.run_sharded(ctx, lambda p: ['views', '--in', p, '--tmp', dtmp, '--roots', roots], shards))
+    m = parts[0]
+    for other in parts[1:]:
+        m['executed'] += other['executed']
+        m['calls'] = m.get('calls', 0) + other.get('calls', 0)
+        for k, v in other['failures_by_key'].items():
+            m['failures_by_key'][k] = m['failures_by_key'].get(k, 0) + v
+        for k, v in other['examples'].items():
+            m['examples'].setdefault(k, v)
+        for k, v in (other.get('drift') or {}).items():
+            m.setdefault('drift', {})
+            m['drift'][k] = m['drift'].get(k, 0) + v
+        m['samples'] = (m.get('samples') or []) + (other.get('samples') or [])
     calls = 0
     drift = {}
     # run_sharded merges the common keys; collect the extra ones again from the examples
